@@ -75,6 +75,17 @@ def _cases(draw):
     prof = dict(gen.PROFILES["broad"], p_entities=0, p_external=0, max_rows=10, text="plain", p_multilang=0.1, p_logic=0.2)
     g = gen.G(draw, prof)
     form = gen.build_form(draw, prof, g=g)
+    # list names that contain the words of container types (the save_to placement rule is about rows, not list names)
+    if g.lists and g.p("_", 0.3):
+        lst = g.pick(g.lists)
+        old_, new_ = lst["name"], g.pick(["age_group", "repeat_visits", "groups", "begin_group_kind", "repeat"])
+        if not any(x["name"] == new_ for x in g.lists):
+            lst["name"] = new_
+            for n, _ in model.walk(form["nodes"]):
+                t = n["c"].get("type", "").split(" ")
+                if len(t) >= 2 and t[1] == old_:
+                    t[1] = new_
+                    n["c"]["type"] = " ".join(t)
     qs = [(n, anc) for n, anc in model.walk(form["nodes"]) if n["k"] == "q" and n["c"]["type"].split()[0] in ("text", "integer", "decimal", "select_one", "date")]
     names = [n["c"]["name"] for n, _ in qs] or None
     pat = tuple(g.integer(0, 1) for _ in range(4))
